@@ -2,6 +2,7 @@ package e1
 
 import (
 	"fmt"
+	"strings"
 	"testing"
 
 	"verif/internal/vk"
@@ -57,119 +58,139 @@ func TestC10FullState(t *testing.T) {
 		nontriv := vk.NewSet()
 		var cases, steps, tombUnseen int64
 		caseNo := 0
-	outer:
-		for ia, ha := range hA {
-			if !sh.Mine(ia) {
-				continue
+		isSubOp := func(h []int) bool {
+			for _, o := range h {
+				if strings.HasPrefix(ops[o].name, "subs.") {
+					return true
+				}
 			}
-			for _, hb := range hB {
-				for lossA := 0; lossA < 1<<len(ha); lossA++ {
-					for lossB := 0; lossB < 1<<len(hb); lossB++ {
-						for mode := 0; mode < 3; mode++ {
-							caseNo++
-							if caseNo%512 == 0 && timeUp(deadline) {
-								rep.Cap("deadline")
-								break outer
-							}
-							cases++
-							dResetClock()
-							a := newDNode("A", 1, 0)
-							b := newDNode("B", 2, 0)
-							var KA, KB []dEntry
-							desc := map[string]any{}
-							var an, bn []string
-							ok := true
-							for i, oi := range ha {
-								an = append(an, ops[oi].name)
-								var msgs [][]byte
-								if p := vk.Recover(func() { msgs = a.do(func() { ops[oi].run(a) }) }); p != nil {
-									rep.Violate(vk.Violation{Sig: "c10-panic", Msg: fmt.Sprint(p)})
-									ok = false
-									break
+			return false
+		}
+	outer:
+		for _, bOff := range []int64{0, -10} {
+			for ia, ha := range hA {
+				if !sh.Mine(ia) {
+					continue
+				}
+				for _, hb := range hB {
+					// B's clock exactly one tick behind: its next stamp equals the one A just used. Only for sessions and
+					// retained messages, whose local writes are bumped past what the writer has seen (subscription
+					// stamps are plain, so this offset would be a genuine tie, which the statement excludes)
+					if bOff != 0 && (isSubOp(ha) || isSubOp(hb) || len(hb) == 0) {
+						continue
+					}
+					for lossA := 0; lossA < 1<<len(ha); lossA++ {
+						if bOff != 0 && lossA != 0 {
+							continue // B must have seen A's stamps, or equal stamps on one key are a genuine tie
+						}
+						for lossB := 0; lossB < 1<<len(hb); lossB++ {
+							for mode := 0; mode < 3; mode++ {
+								caseNo++
+								if caseNo%512 == 0 && timeUp(deadline) {
+									rep.Cap("deadline")
+									break outer
 								}
-								steps++
-								for _, m := range msgs {
-									es, _ := decodeBroadcast(m)
-									KA = append(KA, es...)
-									if lossA&(1<<i) == 0 {
-										b.recv(m)
-										KB = append(KB, es...)
+								cases++
+								dResetClock()
+								a := newDNode("A", 1, 0)
+								b := newDNode("B", 2, bOff)
+								var KA, KB []dEntry
+								desc := map[string]any{}
+								var an, bn []string
+								ok := true
+								for i, oi := range ha {
+									an = append(an, ops[oi].name)
+									var msgs [][]byte
+									if p := vk.Recover(func() { msgs = a.do(func() { ops[oi].run(a) }) }); p != nil {
+										rep.Violate(vk.Violation{Sig: "c10-panic", Msg: fmt.Sprint(p)})
+										ok = false
+										break
 									}
-								}
-							}
-							if !ok {
-								continue
-							}
-							for i, oi := range hb {
-								bn = append(bn, ops[oi].name)
-								msgs := b.do(func() { ops[oi].run(b) })
-								steps++
-								for _, m := range msgs {
-									es, _ := decodeBroadcast(m)
-									KB = append(KB, es...)
-									if lossB&(1<<i) == 0 {
-										a.recv(m)
+									steps++
+									for _, m := range msgs {
+										es, _ := decodeBroadcast(m)
 										KA = append(KA, es...)
+										if lossA&(1<<i) == 0 {
+											b.recv(m)
+											KB = append(KB, es...)
+										}
 									}
 								}
-							}
-							desc["A_ops"] = an
-							desc["B_ops"] = bn
-							desc["A_gossip_lost_mask"] = lossA
-							desc["B_gossip_lost_mask"] = lossB
-							desc["mode"] = []string{"A->B", "B->A", "both"}[mode]
-							// sanity of the reference itself: before any exchange each node lists LWW of what it has seen
-							if got, want := a.list().String(), lwwListing(KA).String(); got != want {
-								rep.HarnessError("reference model disagrees before exchange on A: got %s want %s (%v)", got, want, desc)
-								continue
-							}
-							if got, want := b.list().String(), lwwListing(KB).String(); got != want {
-								rep.HarnessError("reference model disagrees before exchange on B: got %s want %s (%v)", got, want, desc)
-								continue
-							}
-							// non-trivial: X holds a removal Y has not seen, and >=2 entries of a kind
-							if hasUnseenTombstone(KA, KB) || hasUnseenTombstone(KB, KA) {
-								tombUnseen++
-								nontriv.AddString(fmt.Sprint(desc))
-							}
-							check := func(from, to *dnode, Kfrom []dEntry, Kto *[]dEntry, label string) bool {
-								snap := from.st.Distributor().LocalState(false)
-								fresh := newDNode("F", 9, 0)
-								fresh.st.Distributor().MergeRemoteState(snap, true)
-								if got, want := fresh.list().String(), from.list().String(); got != want {
-									rep.Violate(vk.Violation{Sig: "c10-fresh-node-differs", KF: "",
-										Msg:    fmt.Sprintf("%v: a fresh node merging %s's snapshot lists %s but %s lists %s", desc, from.name, got, from.name, want),
-										Replay: desc})
-									return false
+								if !ok {
+									continue
 								}
-								to.st.Distributor().MergeRemoteState(snap, false)
-								*Kto = append(*Kto, Kfrom...)
-								if got, want := to.list().String(), lwwListing(*Kto).String(); got != want {
-									sig := "c10-lagging-node-not-updated"
-									rep.Violate(vk.Violation{Sig: sig,
-										Msg:    fmt.Sprintf("%v: after %s, %s lists %s; newest-entry-wins over both nodes' knowledge gives %s", desc, label, to.name, got, want),
-										Replay: desc})
-									return false
-								}
-								return true
-							}
-							good := true
-							switch mode {
-							case 0:
-								good = check(a, b, KA, &KB, "A->B")
-							case 1:
-								good = check(b, a, KB, &KA, "B->A")
-							case 2:
-								good = check(a, b, KA, &KB, "A->B") && check(b, a, KB, &KA, "B->A")
-								if good {
-									if la, lb := a.list().String(), b.list().String(); la != lb {
-										rep.Violate(vk.Violation{Sig: "c10-not-identical-after-both", Msg: fmt.Sprintf("%v: after exchanging snapshots both ways A lists %s and B lists %s", desc, la, lb), Replay: desc})
+								for i, oi := range hb {
+									bn = append(bn, ops[oi].name)
+									msgs := b.do(func() { ops[oi].run(b) })
+									steps++
+									for _, m := range msgs {
+										es, _ := decodeBroadcast(m)
+										KB = append(KB, es...)
+										if lossB&(1<<i) == 0 {
+											a.recv(m)
+											KA = append(KA, es...)
+										}
 									}
 								}
-							}
-							states.AddString(a.list().String() + "||" + b.list().String())
-							if cases%50000 == 1 {
-								rep.Sample(desc)
+								desc["A_ops"] = an
+								desc["B_ops"] = bn
+								desc["A_gossip_lost_mask"] = lossA
+								desc["B_gossip_lost_mask"] = lossB
+								desc["mode"] = []string{"A->B", "B->A", "both"}[mode]
+								desc["B_clock_offset"] = bOff
+								// sanity of the reference itself: before any exchange each node lists LWW of what it has seen
+								if got, want := a.list().String(), lwwListing(KA).String(); got != want {
+									rep.HarnessError("reference model disagrees before exchange on A: got %s want %s (%v)", got, want, desc)
+									continue
+								}
+								if got, want := b.list().String(), lwwListing(KB).String(); got != want {
+									rep.HarnessError("reference model disagrees before exchange on B: got %s want %s (%v)", got, want, desc)
+									continue
+								}
+								// non-trivial: X holds a removal Y has not seen, and >=2 entries of a kind
+								if hasUnseenTombstone(KA, KB) || hasUnseenTombstone(KB, KA) {
+									tombUnseen++
+									nontriv.AddString(fmt.Sprint(desc))
+								}
+								check := func(from, to *dnode, Kfrom []dEntry, Kto *[]dEntry, label string) bool {
+									snap := from.st.Distributor().LocalState(false)
+									fresh := newDNode("F", 9, 0)
+									fresh.st.Distributor().MergeRemoteState(snap, true)
+									if got, want := fresh.list().String(), from.list().String(); got != want {
+										rep.Violate(vk.Violation{Sig: "c10-fresh-node-differs", KF: "",
+											Msg:    fmt.Sprintf("%v: a fresh node merging %s's snapshot lists %s but %s lists %s", desc, from.name, got, from.name, want),
+											Replay: desc})
+										return false
+									}
+									to.st.Distributor().MergeRemoteState(snap, false)
+									*Kto = append(*Kto, Kfrom...)
+									if got, want := to.list().String(), lwwListing(*Kto).String(); got != want {
+										sig := "c10-lagging-node-not-updated"
+										rep.Violate(vk.Violation{Sig: sig,
+											Msg:    fmt.Sprintf("%v: after %s, %s lists %s; newest-entry-wins over both nodes' knowledge gives %s", desc, label, to.name, got, want),
+											Replay: desc})
+										return false
+									}
+									return true
+								}
+								good := true
+								switch mode {
+								case 0:
+									good = check(a, b, KA, &KB, "A->B")
+								case 1:
+									good = check(b, a, KB, &KA, "B->A")
+								case 2:
+									good = check(a, b, KA, &KB, "A->B") && check(b, a, KB, &KA, "B->A")
+									if good {
+										if la, lb := a.list().String(), b.list().String(); la != lb {
+											rep.Violate(vk.Violation{Sig: "c10-not-identical-after-both", Msg: fmt.Sprintf("%v: after exchanging snapshots both ways A lists %s and B lists %s", desc, la, lb), Replay: desc})
+										}
+									}
+								}
+								states.AddString(a.list().String() + "||" + b.list().String())
+								if cases%50000 == 1 {
+									rep.Sample(desc)
+								}
 							}
 						}
 					}
